@@ -43,11 +43,14 @@ def extract_atom(
     :param should_remove_trailing_zeros: whether to remove trailing zeros or not.
     :return: the PDDL expression.
     """
-    if expression.func == Float:
+    if expression.func == Float or (
+        expression.is_Rational and not expression.is_Integer
+    ):
+        # rationals such as 1/2 are printed as decimal numbers
         formatted_expression = (
-            format(expression, f".{decimal_digits}f")
+            format(float(expression), f".{decimal_digits}f")
             if not round(float(expression), decimal_digits).is_integer()
-            else f"{int(expression)}"
+            else f"{int(round(float(expression), decimal_digits))}"
         )
         if should_remove_trailing_zeros:
             return formatted_expression if float(formatted_expression) != 0 else None
@@ -72,21 +75,27 @@ def extract_atom(
     raise ValueError(f"Unsupported atomic expression: {expression}")
 
 
-def _recursive_pow_expression_to_pddl(expression: Pow, symbols_map: dict) -> str:
+def _recursive_pow_expression_to_pddl(
+    expression: Pow, symbols_map: dict, compiled_base: Optional[str] = None
+) -> str:
     """Converts a recursive expression to a PDDL format.
 
     :param expression: the expression to convert.
+    :param symbols_map: the map between the symbolic expression and the PDDL expression.
+    :param compiled_base: the PDDL format of the base when it is not a single symbol.
     :return: the string representing the PDDL expression.
     """
     exponent = expression.exp
-    compiled_expression = f"{symbols_map[expression.base]}"
-    if exponent == -1:
-        return f"(/ 1 {compiled_expression})"
+    if not exponent.is_Integer:
+        raise ValueError(f"Unsupported non-integer exponent: {expression}")
 
-    for _ in range(exponent - 1):
-        compiled_expression = (
-            f"(* {compiled_expression} {symbols_map[expression.base]})"
-        )
+    base = compiled_base if compiled_base is not None else f"{symbols_map[expression.base]}"
+    compiled_expression = base
+    for _ in range(abs(int(exponent)) - 1):
+        compiled_expression = f"(* {compiled_expression} {base})"
+
+    if exponent < 0:
+        return f"(/ 1 {compiled_expression})"
 
     return compiled_expression
 
@@ -111,31 +120,32 @@ def _convert_internal_expression_to_pddl(
             expression, symbols_map, decimal_digits, should_remove_trailing_zeros
         )
 
-    if isinstance(expression, Pow) and expression.exp == -1:
-        pddl_expression = _convert_internal_expression_to_pddl(
+    if isinstance(expression, Pow):
+        pddl_base = _convert_internal_expression_to_pddl(
             expression.base,
-            SYMPY_OP_TO_PDDL_OP[expression.base.func],
+            SYMPY_OP_TO_PDDL_OP.get(expression.base.func, ""),
             symbols_map,
             decimal_digits,
-            should_remove_trailing_zeros,
+            False,
         )
-        return f"(/ 1 {pddl_expression})"
-
-    if isinstance(expression, Pow) and expression.exp > 1:
-        return _recursive_pow_expression_to_pddl(expression, symbols_map)
+        return _recursive_pow_expression_to_pddl(expression, symbols_map, pddl_base)
 
     # the expression is a binary expression with multiple arguments
     components = []
     for i in range(len(expression.args)):
         comp = _convert_internal_expression_to_pddl(
             expression.args[i],
-            SYMPY_OP_TO_PDDL_OP[expression.args[i].func],
+            SYMPY_OP_TO_PDDL_OP.get(expression.args[i].func, ""),
             symbols_map,
             decimal_digits,
             should_remove_trailing_zeros,
         )
         if comp:
             components.append(comp)
+
+        elif isinstance(expression, Mul):
+            # a factor that is (rounded to) zero makes the whole product zero.
+            return None
 
     nested_expression = ""
     for component in reversed(components):
@@ -166,14 +176,16 @@ def convert_expr_to_pddl(
     :param should_remove_trailing_zeros: whether to remove trailing zeros or not.
     :return: the PDDL expression.
     """
-    initial_operator = SYMPY_OP_TO_PDDL_OP[expr.func]
-    return _convert_internal_expression_to_pddl(
+    initial_operator = SYMPY_OP_TO_PDDL_OP.get(expr.func, "")
+    pddl_expression = _convert_internal_expression_to_pddl(
         expr,
         initial_operator,
-        {val: key for key, val in symbolic_vars.items()},
+        {val: key for key, val in (symbolic_vars or {}).items()},
         decimal_digits=decimal_digits,
         should_remove_trailing_zeros=should_remove_trailing_zeros,
     )
+    # an expression in which every term was (rounded to) zero.
+    return pddl_expression if pddl_expression else "0"
 
 
 def transform_expression(
